@@ -61,6 +61,9 @@ def sa_bases(R, legacy):
         ("join-blog", False, lambda: start().join(Post.blog)),
         ("join-author", False, lambda: start().join(Post.author)),
         ("join-blog-entity", False, lambda: start().join(Blog)),
+        # Post.owner (-> City) shares its attribute name with Blog.owner (-> Person), which the path2 filter navigates
+        ("join-owner", False, lambda: start().join(Post.owner)),
+        ("outerjoin-owner-where", False, lambda: getattr(start().outerjoin(Post.owner), w)(Post.score >= 0)),
         ("outerjoin-blog", False, lambda: start().outerjoin(Post.blog)),
         ("order-by", True, lambda: start().order_by(Post.title.desc(), Post.id)),
         ("join-blog-where", False, lambda: getattr(start().join(Post.blog), w)(Blog.title != "b2")),
@@ -295,7 +298,7 @@ def run(ctx):
     units = [["product"]] + [chosen[i::40] for i in range(40) if chosen[i::40]]
     ctx.pmap(_unit, units)
     ctx.layer("queries", instances=len(chosen) + 1, of=len(inst) + 1, filters=len(FILTERS), exhaustive=not ctx.quick,
-              bases={"sa-select": 10, "sa-query": 10, "sa-core": 3, "django": 10})
+              bases={"sa-select": 12, "sa-query": 12, "sa-core": 3, "django": 10})
     n = registry_layer(ctx)
     ctx.layer("registry", histories=n, names=EXT_NAMES, exhaustive=not ctx.quick)
 
